@@ -115,7 +115,7 @@ impl VehicleTypes {
 }
 
 // ================================================================ Network::new : overflow depot
-//@skeleton model/src/network.rs Network::new : recv sum 0; let max_formation_count; let overflow_capacity; closure map#2 = 2bed0bf49f5a8ac7
+//@skeleton model/src/network.rs Network::new : recv sum 0; let max_formation_count; let overflow_capacity; closure map#3 = 310ef5cabde5f3e6
 
 //@frag model/src/network.rs Network::new : recv sum 0 as frag_service_trip_counts
 //@params service_trips: &StdMap<VehicleTypeIdx, Vec<ServiceTrip>>
@@ -156,17 +156,52 @@ impl VehicleTypes {
         }
 //@end
 
+//@item model/src/network/nodes.rs MaintenanceSlot::track_count
+//@retname r
+//@sig
+    ensures r == self.track_count,
+//@end
+/// the tracks of all maintenance slots (every track can make the flow stage send a vehicle of its own through the slot)
+pub open spec fn tracks_total(ms: Seq<MaintenanceSlot>) -> int { isum(ms.map_values(|m: MaintenanceSlot| m.track_count as int)) }
+pub open spec fn sat_u32(x: int) -> int { if x <= u32::MAX { x } else { u32::MAX as int } }
+pub open spec fn is_tracks_of(ms: Seq<MaintenanceSlot>, s: Seq<u64>) -> bool {
+    s.len() == ms.len() && forall|i: int| 0 <= i < s.len() ==> #[trigger] s[i] == ms[i].track_count as u64
+}
+pub proof fn lemma_tracks_sum(ms: Seq<MaintenanceSlot>)
+    requires ms.len() <= 0x1_0000_0000,
+    ensures
+        0 <= tracks_total(ms) <= u64::MAX,
+        forall|s: Seq<u64>| is_tracks_of(ms, s) ==> #[trigger] <u64 as VSum<u64>>::sum_req(s),
+        forall|s: Seq<u64>| is_tracks_of(ms, s) ==> (#[trigger] <u64 as VSum<u64>>::spec_sum(s)) as int == tracks_total(ms),
+{
+    let f = ms.map_values(|m: MaintenanceSlot| m.track_count as int);
+    lemma_isum_bounds(f, 0, u32::MAX as int);
+    assert(u32::MAX * f.len() <= u64::MAX) by (nonlinear_arith) requires f.len() <= 0x1_0000_0000;
+    assert(0 * f.len() == 0) by (nonlinear_arith);
+    assert forall|s: Seq<u64>| #[trigger] is_tracks_of(ms, s) implies <u64 as VSum<u64>>::sum_req(s) && (<u64 as VSum<u64>>::spec_sum(s)) as int == tracks_total(ms) by {
+        assert(s.map_values(|x: u64| x as int) =~= f);
+    }
+}
 //@frag model/src/network.rs Network::new : let overflow_capacity as frag_overflow_capacity
-//@params number_of_service_nodes: usize, max_formation_count: VehicleCount
+//@params number_of_service_nodes: usize, max_formation_count: VehicleCount, maintenance_slots: &Vec<MaintenanceSlot>
 //@ret (r: VehicleCount)
+//@viter
+//@closure-params map#2
+    &MaintenanceSlot
+//@closure map#2
+    -> (c: u64) ensures c == slot.track_count as u64
 //@sig
     requires
-        // ASSUMED (not established by Network::new): the count fits VehicleCount (at most 2^16 trips: Idx = u16)
-        number_of_service_nodes <= u32::MAX,
-    ensures r as int == (if number_of_service_nodes * max_formation_count <= u32::MAX { number_of_service_nodes * max_formation_count } else { u32::MAX as int }),
+        // ASSUMED (not established by Network::new): the counts fit (at most 2^16 trips and slots: Idx = u16)
+        number_of_service_nodes <= u32::MAX, maintenance_slots@.len() <= 0x1_0000_0000,
+    ensures
+        // D13: trips * formation count PLUS the maintenance tracks, saturating
+        r as int == sat_u32(sat_u32(number_of_service_nodes * max_formation_count) + sat_u32(tracks_total(maintenance_slots@))), // @obl C17.overflow_depot.capacity_counts_trips_and_maintenance_tracks
+//@first
+        proof { lemma_tracks_sum(maintenance_slots@); }
 //@end
 
-//@frag model/src/network.rs Network::new : closure map#2 as frag_overflow_allowed_type
+//@frag model/src/network.rs Network::new : closure map#3 as frag_overflow_allowed_type
 //@params vt: VehicleTypeIdx
 //@ret (r: (VehicleTypeIdx, Option<VehicleCount>))
 //@sig
@@ -191,20 +226,22 @@ pub open spec fn need_within_limits(trips: Map<VehicleTypeIdx, Vec<ServiceTrip>>
     }
 }
 /// what the three fragments of Network::new guarantee (their `ensures`, connected by the pinned plumbing)
-pub open spec fn overflow_fragments(trips: Map<VehicleTypeIdx, Vec<ServiceTrip>>, vts: VehicleTypes, n: usize, m: VehicleCount, cap: VehicleCount) -> bool {
+pub open spec fn overflow_fragments(trips: Map<VehicleTypeIdx, Vec<ServiceTrip>>, vts: VehicleTypes, ms: Seq<MaintenanceSlot>, n: usize, m: VehicleCount, cap: VehicleCount) -> bool {
     &&& n as int == total_len(trips)          // frag_service_trip_counts + `.sum::<usize>()`
     &&& (forall|k: VehicleTypeIdx| vts.vehicle_types@.contains_key(k) ==> #[trigger] vts.fc_or_1(k) <= m)  // frag_max_formation_count
     &&& m >= 1
-    &&& cap as int == (if n * m <= u32::MAX { n * m } else { u32::MAX as int })   // frag_overflow_capacity (saturating product)
+    &&& cap as int == sat_u32(sat_u32(n * m) + sat_u32(tracks_total(ms)))   // frag_overflow_capacity (saturating product plus the maintenance tracks)
 }
 /// C17 / C06: the overflow depot can host every vehicle the instance may need (up to the largest
 /// representable vehicle count)
-pub proof fn lemma_overflow_depot_can_host_every_vehicle(trips: Map<VehicleTypeIdx, Vec<ServiceTrip>>, vts: VehicleTypes,
+pub proof fn lemma_overflow_depot_can_host_every_vehicle(trips: Map<VehicleTypeIdx, Vec<ServiceTrip>>, vts: VehicleTypes, ms: Seq<MaintenanceSlot>,
         need: spec_fn(VehicleTypeIdx, int) -> int, n: usize, m: VehicleCount, cap: VehicleCount)
     requires
-        overflow_fragments(trips, vts, n, m, cap),
+        overflow_fragments(trips, vts, ms, n, m, cap),
         need_within_limits(trips, vts, need),
-    ensures cap >= need_total(trips, need) || cap == u32::MAX, // @obl C17.overflow_depot.can_host_every_vehicle
+    // every vehicle: those the trips may need and one per maintenance track (D13: the flow stage sends exactly
+    // `count` vehicles through a slot, and none of them needs to serve a trip)
+    ensures cap >= need_total(trips, need) + tracks_total(ms) || cap == u32::MAX, // @obl C17.overflow_depot.can_host_every_vehicle
 {
     let g = need_of(trips, need);
     let f = len_of(trips);
@@ -225,6 +262,18 @@ pub proof fn lemma_overflow_depot_can_host_every_vehicle(trips: Map<VehicleTypeI
     }
     lemma_set_sum_le_scaled(trips.dom(), g, f, m as int);
     assert((m as int) * (n as int) == (n as int) * (m as int)) by (nonlinear_arith);
+    let tr = ms.map_values(|x: MaintenanceSlot| x.track_count as int);
+    lemma_isum_bounds(tr, 0, u32::MAX as int);
+    assert(0 * tr.len() == 0) by (nonlinear_arith);
+    assert(0 <= need_total(trips, need)) by {
+        assert forall|k: VehicleTypeIdx| trips.dom().contains(k) implies 0 <= #[trigger] g(k) by {
+            let s = Seq::new(trips[k]@.len(), |i: int| need(k, i));
+            assert forall|i: int| 0 <= i < s.len() implies 0 <= #[trigger] s[i] by { assert(need(k, i) >= 0); }
+            lemma_isum_bounds(s, 0, 0x7fff_ffff_ffff_ffff);
+            assert(0 * s.len() == 0) by (nonlinear_arith);
+        }
+        lemma_set_sum_nonneg(trips.dom(), g);
+    }
 }
 /// the overflow depot's capacity for every listed type without per-type limit is its total capacity
 pub proof fn lemma_no_type_limit_means_total(d: Depot, vt: VehicleTypeIdx)
